@@ -146,6 +146,13 @@ def active_rule_stack_popped_by_late_finalisation():
     edit(T, "def _run(${ctx}text, pos, start, fullparse):\n    memo = {}\n", "_active_rules = []\n\n\ndef _run(${ctx}text, pos, start, fullparse):\n    memo = {}\n")
     edit(T, "    _PositionInfo,\n", "    _PositionInfo,\n    _active_rules,\n")
 
+@mutant
+def linemap_cached_by_identity_also_for_mutable_buffers():
+    # correct for str and bytes (identity with a strong reference, validated with `is`) -- not for a bytearray
+    # that its owner refills in place between two calls
+    edit(T, "def _map_index_to_line_and_column(text):\n    line_numbers = []", "_LAST_MAP = [None, None]\n\ndef _map_index_to_line_and_column(text):\n    if _LAST_MAP[0] is text:\n        return _LAST_MAP[1]\n    line_numbers = []")
+    edit(T, "        column_numbers.append(current_column)\n\n    return line_numbers, column_numbers", "        column_numbers.append(current_column)\n\n    _LAST_MAP[0], _LAST_MAP[1] = text, (line_numbers, column_numbers)\n    return line_numbers, column_numbers")
+
 if __name__ == '__main__':
     fresh()
     only = sys.argv[2:] 
